@@ -1,6 +1,7 @@
 import GlyProofs.Front.WalkDen
 import GlyModel.Api.Query
 import GlyProofs.Front.CreateLemmas
+import GlyProofs.Api.EmbedLemmas
 /-
   C16 — Structural queries agree with the structure. (Property theorems only.)
 -/
@@ -109,6 +110,41 @@ theorem C16_some_gt_basic_counterexample :
     let g : Recipe := [("Man".toList, Gen.frontCfg.tSAC), ("Hep".toList, Gen.frontCfg.tSAC)]
     let q : Recipe := [("Hep".toList, Gen.frontCfg.tSAC)]
     matchSome g q = true ∧ matchBasic g q = false := by
+  decide +kernel
+
+open Gly.Embed Gly.Query in
+/-- **Every glycan contains itself** (Model of `count(…, match_nodes=True)`, `Embed.count`: the number of induced sub-graph
+    isomorphisms of the query into the glycan; tied to glycan.py by comparing counts on the trees and recipes the code builds):
+    for every tree, every node matcher that is reflexive on the glycan's residues and edge matching on or off, the identity is an
+    embedding, so the count is at least 1 – whatever the shape of the linkage labels. -/
+theorem C16_contains_itself (nodeOk : Recipe → Recipe → Bool) (edges : Bool) (g : G)
+    (hn : ∀ r ∈ g.nodes, nodeOk r r = true) : 1 ≤ Embed.count nodeOk (edgeEq edges) g g :=
+  count_self_pos nodeOk (edgeEq edges) g hn (fun e _ => edgeEq_refl edges e.2.2)
+
+open Gly.Query Gly.Model in
+/-- … and the two recipe matchers are reflexive: `some` always, `basic` on every residue that has a sugar token (every residue
+    the walker creates from a grammatical name has one; without it `recipe_equality` raises). -/
+theorem C16_matchers_reflexive (r : Recipe) :
+    matchSome r r = true ∧ ((firstOfType r Gen.frontCfg.tSAC).isSome = true → matchBasic r r = true) := by
+  constructor
+  · simp only [matchSome, List.all_eq_true]
+    intro x hx
+    exact List.elem_eq_true_of_mem hx
+  · intro h
+    unfold matchBasic
+    cases hf : firstOfType r Gen.frontCfg.tSAC with
+    | none => simp [hf] at h
+    | some a => simp
+
+open Gly.Embed Gly.Query in
+/-- Non-vacuity, and a count above 1: `Man(a1-3)[Man(a1-6)]Man` contains `Man(a1-3)Man`… no: an *induced* match needs the same
+    edges, so the two-residue chain `Man(a1-6)Man` is found once with edge matching and twice without. -/
+theorem C16_count_examples :
+    let man : Recipe := [("Man".toList, Gen.frontCfg.tSAC)]
+    let g : G := ⟨[man, man, man], [(0, 1, "(a1-3)".toList), (0, 2, "(a1-6)".toList)]⟩
+    let q : G := ⟨[man, man], [(0, 1, "(a1-6)".toList)]⟩
+    Embed.count matchBasic (edgeEq true) g q = 1 ∧ Embed.count matchBasic (edgeEq false) g q = 2 ∧
+    Embed.count matchBasic (edgeEq true) g g = 1 := by
   decide +kernel
 
 end Gly.Props.C16
